@@ -285,3 +285,91 @@ package s3db
 //@   any b AbsRow
 //@   assume rowAbsInv(a) && rowAbsInv(b) && tieOK(a, b)
 //@   show M(M(a, b), a) == M(a, b)
+
+// ---------------------------------------------------------------------------
+// Node codec (property C16, value part of C08). protobuf transports a
+// v1proto.Node faithfully (assumed, /verif/trusted/proto.contracts); what is
+// proved is that the two mappings mast.Node <-> v1proto.Node written here are
+// element-wise inverse: keys, the four value fields, and child links
+// *including absent ones*.
+
+//@ spec encLink(l interface{}) string = ite(l == nil, "", l.(string))
+//@ spec decLink(s string) interface{} = ite(s == "", iface(nil), iface(s))
+//@ spec linkShape(l interface{}) bool = l == nil || (typeis(l, string) && l.(string) != "")
+//@ spec rowOf(v interface{}) *v1proto.Row = ite(typeis(v, *v1proto.Row), v.(*v1proto.Row), nil)
+
+//@ lemma codec-link-roundtrip
+//@   any l interface{}
+//@   assume linkShape(l)
+//@   show decLink(encLink(l)) == l
+
+//@ func marshalProto
+//@   requires typeis(i, mast.Node)
+//@   requires len(i.(mast.Node).Value) <= len(i.(mast.Node).Key) || true
+//@   requires forall j int :: imp(0 <= j && j < len(i.(mast.Node).Key), typeis(i.(mast.Node).Key[j], *Key) && i.(mast.Node).Key[j].(*Key) != nil)
+//@   requires forall j int :: imp(0 <= j && j < len(i.(mast.Node).Value), typeis(i.(mast.Node).Value[j], crdt.Value))
+//@   requires forall j int :: imp(0 <= j && j < len(i.(mast.Node).Link), i.(mast.Node).Link[j] == nil || typeis(i.(mast.Node).Link[j], string))
+//@   modifies nothing
+//@   ensures lens: len(out.Key) == len(i.(mast.Node).Key) && len(out.Value) == len(i.(mast.Node).Value) && len(out.Link) == len(i.(mast.Node).Link)
+//@   ensures keys: forall j int :: imp(0 <= j && j < len(out.Key), out.Key[j] == i.(mast.Node).Key[j].(*Key).SQLiteValue)
+//@   ensures values: forall j int :: imp(0 <= j && j < len(out.Value), out.Value[j] != nil &&
+//@       out.Value[j].ModEpochNanos == i.(mast.Node).Value[j].(crdt.Value).ModEpochNanos &&
+//@       out.Value[j].TombstoneSinceEpochNanos == i.(mast.Node).Value[j].(crdt.Value).TombstoneSinceEpochNanos &&
+//@       out.Value[j].PreviousRoot == i.(mast.Node).Value[j].(crdt.Value).PreviousRoot &&
+//@       out.Value[j].Value == rowOf(i.(mast.Node).Value[j].(crdt.Value).Value))
+//@   ensures links: forall j int :: imp(0 <= j && j < len(out.Link), out.Link[j] == encLink(i.(mast.Node).Link[j]))
+//@   loop 1 invariant -1 <= rangeindex && rangeindex < len(i.(mast.Node).Key) && len(out.Key) == len(i.(mast.Node).Key) && len(out.Value) == len(i.(mast.Node).Value) && len(out.Link) == len(i.(mast.Node).Link)
+//@   loop 1 invariant forall j int :: imp(0 <= j && j <= rangeindex, out.Key[j] == i.(mast.Node).Key[j].(*Key).SQLiteValue)
+//@   loop 2 invariant -1 <= rangeindex && rangeindex < len(i.(mast.Node).Value) && len(out.Key) == len(i.(mast.Node).Key) && len(out.Value) == len(i.(mast.Node).Value) && len(out.Link) == len(i.(mast.Node).Link)
+//@   loop 2 invariant forall j int :: imp(0 <= j && j < len(out.Key), out.Key[j] == i.(mast.Node).Key[j].(*Key).SQLiteValue)
+//@   loop 2 invariant forall j int :: imp(0 <= j && j <= rangeindex, out.Value[j] != nil &&
+//@       out.Value[j].ModEpochNanos == i.(mast.Node).Value[j].(crdt.Value).ModEpochNanos &&
+//@       out.Value[j].TombstoneSinceEpochNanos == i.(mast.Node).Value[j].(crdt.Value).TombstoneSinceEpochNanos &&
+//@       out.Value[j].PreviousRoot == i.(mast.Node).Value[j].(crdt.Value).PreviousRoot &&
+//@       out.Value[j].Value == rowOf(i.(mast.Node).Value[j].(crdt.Value).Value))
+//@   loop 3 invariant -1 <= rangeindex && rangeindex < len(i.(mast.Node).Link) && len(out.Key) == len(i.(mast.Node).Key) && len(out.Value) == len(i.(mast.Node).Value) && len(out.Link) == len(i.(mast.Node).Link)
+//@   loop 3 invariant forall j int :: imp(0 <= j && j < len(out.Key), out.Key[j] == i.(mast.Node).Key[j].(*Key).SQLiteValue)
+//@   loop 3 invariant forall j int :: imp(0 <= j && j < len(out.Value), out.Value[j] != nil &&
+//@       out.Value[j].ModEpochNanos == i.(mast.Node).Value[j].(crdt.Value).ModEpochNanos &&
+//@       out.Value[j].TombstoneSinceEpochNanos == i.(mast.Node).Value[j].(crdt.Value).TombstoneSinceEpochNanos &&
+//@       out.Value[j].PreviousRoot == i.(mast.Node).Value[j].(crdt.Value).PreviousRoot &&
+//@       out.Value[j].Value == rowOf(i.(mast.Node).Value[j].(crdt.Value).Value))
+//@   loop 3 invariant forall j int :: imp(0 <= j && j <= rangeindex, out.Link[j] == encLink(i.(mast.Node).Link[j]))
+//@   loop 3 invariant forall j int :: imp(rangeindex < j && j < len(out.Link), out.Link[j] == "")
+
+// unmarshalProto: `in` is the decoded protobuf message (local); `out` the
+// mast.Node behind outi. Element-wise inverse of marshalProto; an absent child
+// link ("" on the wire) must come back as nil, never as the string "".
+//@ func unmarshalProto
+//@   requires typeis(outi, *mast.Node) && outi.(*mast.Node) != nil
+//@   modifies *outi.(*mast.Node)
+//@   ensures lens: imp(result == nil, len(outi.(*mast.Node).Key) == len(in.Key) && len(outi.(*mast.Node).Value) == len(in.Value) && len(outi.(*mast.Node).Link) == len(in.Link))
+//@   ensures keys: forall j int :: imp(result == nil && 0 <= j && j < len(in.Key), typeis(outi.(*mast.Node).Key[j], *Key) && outi.(*mast.Node).Key[j].(*Key) != nil && outi.(*mast.Node).Key[j].(*Key).SQLiteValue == in.Key[j])
+//@   ensures values: forall j int :: imp(result == nil && 0 <= j && j < len(in.Value), typeis(outi.(*mast.Node).Value[j], crdt.Value) &&
+//@       outi.(*mast.Node).Value[j].(crdt.Value).ModEpochNanos == in.Value[j].ModEpochNanos &&
+//@       outi.(*mast.Node).Value[j].(crdt.Value).TombstoneSinceEpochNanos == in.Value[j].TombstoneSinceEpochNanos &&
+//@       outi.(*mast.Node).Value[j].(crdt.Value).PreviousRoot == in.Value[j].PreviousRoot &&
+//@       rowOf(outi.(*mast.Node).Value[j].(crdt.Value).Value) == in.Value[j].Value)
+//@   ensures links: forall j int :: imp(result == nil && 0 <= j && j < len(in.Link), outi.(*mast.Node).Link[j] == decLink(in.Link[j]))
+//@   loop 1 modifies contents(out.Key)
+//@   loop 2 modifies contents(out.Value)
+//@   loop 1 invariant -1 <= rangeindex && rangeindex < len(in.Key) && len(out.Key) == len(in.Key) && len(out.Value) == len(in.Value) && len(out.Link) == len(in.Link)
+//@   loop 1 invariant forall j int :: imp(0 <= j && j < len(in.Key), in.Key[j] != nil) && imp(0 <= j && j < len(in.Value), in.Value[j] != nil)
+//@   loop 1 invariant forall j int :: imp(0 <= j && j <= rangeindex, typeis(out.Key[j], *Key) && out.Key[j].(*Key) != nil && out.Key[j].(*Key).SQLiteValue == in.Key[j])
+//@   loop 2 invariant -1 <= rangeindex && rangeindex < len(in.Value) && len(out.Key) == len(in.Key) && len(out.Value) == len(in.Value) && len(out.Link) == len(in.Link)
+//@   loop 2 invariant forall j int :: imp(0 <= j && j < len(in.Value), in.Value[j] != nil)
+//@   loop 2 invariant forall j int :: imp(0 <= j && j < len(in.Key), typeis(out.Key[j], *Key) && out.Key[j].(*Key) != nil && out.Key[j].(*Key).SQLiteValue == in.Key[j])
+//@   loop 2 invariant forall j int :: imp(0 <= j && j <= rangeindex, typeis(out.Value[j], crdt.Value) &&
+//@       out.Value[j].(crdt.Value).ModEpochNanos == in.Value[j].ModEpochNanos &&
+//@       out.Value[j].(crdt.Value).TombstoneSinceEpochNanos == in.Value[j].TombstoneSinceEpochNanos &&
+//@       out.Value[j].(crdt.Value).PreviousRoot == in.Value[j].PreviousRoot &&
+//@       rowOf(out.Value[j].(crdt.Value).Value) == in.Value[j].Value)
+//@   loop 3 invariant -1 <= rangeindex && rangeindex < len(in.Link) && len(out.Key) == len(in.Key) && len(out.Value) == len(in.Value) && len(out.Link) == len(in.Link)
+//@   loop 3 invariant forall j int :: imp(0 <= j && j < len(in.Key), typeis(out.Key[j], *Key) && out.Key[j].(*Key) != nil && out.Key[j].(*Key).SQLiteValue == in.Key[j])
+//@   loop 3 invariant forall j int :: imp(0 <= j && j < len(in.Value), typeis(out.Value[j], crdt.Value) &&
+//@       out.Value[j].(crdt.Value).ModEpochNanos == in.Value[j].ModEpochNanos &&
+//@       out.Value[j].(crdt.Value).TombstoneSinceEpochNanos == in.Value[j].TombstoneSinceEpochNanos &&
+//@       out.Value[j].(crdt.Value).PreviousRoot == in.Value[j].PreviousRoot &&
+//@       rowOf(out.Value[j].(crdt.Value).Value) == in.Value[j].Value)
+//@   loop 3 invariant forall j int :: imp(0 <= j && j <= rangeindex, out.Link[j] == decLink(in.Link[j]))
+//@   loop 3 invariant forall j int :: imp(rangeindex < j && j < len(out.Link), out.Link[j] == nil)
